@@ -291,6 +291,15 @@ def gen_history(rng, nclients, length, reopen=True, ticks=True, lib=True):
             return {"sym": "anc", "of": other, "k": rng.randint(0, 5)}
         return {"sym": "snap", "of": rng.choice([c, other])}
 
+    if nclients >= 2 and rng.random() < 0.5:
+        # a client that roots its history at another client's version, snapshots it, and both go on from there
+        a, b = rng.sample(range(1, nclients + 1), 2)
+        steps += [{"op": "AddVersion", "c": b, "arg": {"sym": "nil"}}, {"op": "AddVersion", "c": b, "arg": {"sym": "latest", "of": b}},
+                  {"op": "AddSnapshot", "c": b, "arg": {"sym": "latest", "of": b}},
+                  {"op": "AddVersion", "c": a, "arg": {"sym": "latest", "of": b}}, {"op": "AddSnapshot", "c": a, "arg": {"sym": "latest", "of": b}},
+                  {"op": "GetSnapshot", "c": b}, {"op": "AddVersion", "c": b, "arg": {"sym": "latest", "of": b}},
+                  {"op": "GetChildVersion", "c": b, "arg": {"sym": "anc", "of": b, "k": 1}}, {"op": "AddVersion", "c": a, "arg": {"sym": "latest", "of": a}},
+                  {"op": "AddSnapshot", "c": a, "arg": {"sym": "latest", "of": a}}, {"op": "GetSnapshot", "c": b}, {"op": "GetSnapshot", "c": a}]
     for i in range(length):
         c = rng.randint(1, nclients)
         r = rng.random()
